@@ -156,6 +156,8 @@ def r4(ctx):
     ctx.require(len(cw) == 1, w, 'word-split', 'workers count words with text::count_words_whitespace (the tokenizer\'s pattern, R-C02-3)', None)
     c = ctx.body('text::count_words_whitespace')
     rn = [sym(c, t.args[0]) for t in c.calls(r'regex::Regex::new$')]
+    from rules.common import word_pattern_is_whitespace_only
+    word_pattern_is_whitespace_only(ctx, c, 'training')
     ctx.require(any(x == ('static', 'text::SPLIT_WORD_WHITESPACE_PATTERN') for x in rn), c, 'pattern', 'count_words_whitespace compiles text::SPLIT_WORD_WHITESPACE_PATTERN', None)
     sent = core(sym(w, send.args[1]))
     ctx.require(has(sent, Call('count_words_whitespace', ANY, ANY)) or has(init_value(w, sent), Call('count_words_whitespace', ANY, ANY)), w, 'sent-counts',
@@ -250,6 +252,13 @@ def r5(ctx):
             ctx.require(ok, b, 'guard|%s-%s' % key, '%s prev pair only if i > 0' % word, None, s.span)
         elif word == 'old':
             ok = any(pol is True and match(t, ('bin', 'Lt', i, ('bin', 'Sub', Call('Vec::len', ANY), Const(2)))) for t, pol in atoms)
+            if not ok:
+                # the same bounds written with slice::get (`if let Some(after) = old_word.get(i + 2)`, `get(i + 3) == Some(..)`): in range exactly
+                # when the comparison holds, but the overlap test is then a computed boolean this rule cannot take apart
+                from analysis.sym import variant_facts_at as _vfa
+                viaget = any(n_ == {'Some'} and match(core(t_), Call('get', ANY, ('bin', 'Add', i, Const(2)))) for t_, n_ in _vfa(b, s.bb))
+                if viaget:
+                    raise AnchorMissing('update_stats: the old-word next-pair guards as index comparisons (they are written with slice::get)')
             ctx.require(ok, b, 'guard|old-next', 'old next pair only if i < len - 2', None, s.span)
             # .. and not when the next two symbols are another occurrence of the merged pair (old[i+2] == first && i < len-3 && old[i+3] == second): that
             # occurrence decrements the pair between them itself; counting it twice drives the per-word occurrence count to 0 while an occurrence
@@ -500,3 +509,22 @@ def r10(ctx):
     c11.r1(ctx)
     c11.r2(ctx)
     c11.charstring_primitive(ctx)
+
+
+@rule('C19', 'R-C19-11', 'T11 SIBLING (one unit of length while counting the corpus)',
+      'the counting workers of train_bpe clean and normalise every line with the same constant segmentation flag (grapheme clusters): cleaning by '
+      'code points turns the space in front of a combining mark into a word separator, the corpus is segmented differently from the text the '
+      'tokenizer later sees, and the table gains entries for pairs that do not occur')
+def r11(ctx):
+    from rules.c20 import segmentation_flags_agree
+    root = ctx.body(T + 'train_bpe').path
+    segmentation_flags_agree(ctx, lambda b: b.path == root or (b.kind == 'Closure' and (b.root == root or (b.parent or '').startswith(root))),
+                             'train_bpe', 'train_bpe')
+
+
+@rule('C19', 'R-C19-12', 'T5 (the reducer waits for every worker)',
+      'train_bpe folds the per-line counts with blocking receives only: the fold ends when all counting workers have dropped their senders, not '
+      'when they are slow')
+def r12(ctx):
+    from rules.common import blocking_receives_only
+    blocking_receives_only(ctx, ctx.body(T + 'train_bpe').path, 'train_bpe')
